@@ -10,6 +10,42 @@ CHECKS = {'C01': {'design_ref': 'DESIGN.md 3/C01',
                  'warps, pyramids); the result becomes the next state (thorough: second op from a reduced alphabet). Each step is decided pixel by pixel '
                  'against an independent multilinear/nearest reference driven by the returned transform, landmark by landmark through the same transform, and '
                  'mask pixel by mask pixel.'},
+ 'C02': {'design_ref': 'DESIGN.md 3/C02',
+         'note': "finite parameter letters stand for 'all finite parameter values'; 5-point shapes",
+         'technique': 'exhaustive cross product of shape letters x transform letters explored to depth 2 on the implementation against an array-level '
+                      'reference model',
+         'text': 'Cross product of every shape class (8 classes x 2-D/3-D x 0/1/2 landmark groups, plus empty-manager, nested-group and out-of-domain '
+                 'variants: 96 roots) with every transform letter (12 homogeneous-family classes, chain, dimension slicing, TPS, piecewise affine; unbatched '
+                 'and batch_size=2), depth 2 in thorough (a second transform applied to the result). Oracle: result class, points == transform applied to the '
+                 'bare array and == reference matrix product, every landmark group moved by the same map, connectivity/trilist/labels/colours/texture/tcoords '
+                 'carried unchanged, input shape, landmarks and transform unchanged (observation digests), no observable aliasing between result and input.'},
+ 'C04': {'design_ref': 'DESIGN.md 3/C04',
+         'note': 'TPS is asked the interpolation / reverse-fit clauses only (it declares no true inverse); parameter letters stand for the continuous '
+                 'quantifier',
+         'technique': 'explicit-state BFS over operation histories on the implementation, each transition checked against a reference model',
+         'text': 'Every invertible transform letter (7 plain + 5 alignment homogeneous classes in 2-D/3-D with rotation/mirror/anisotropic/shear/projective '
+                 'parameter letters, piecewise affine over several triangulations, TPS with 3 kernels x several point counts and targets, the tcoords pair) is '
+                 'explored under pseudoinverse (chained: inverse of the inverse), retargeting and one in-place composition to depth 3 (quick) / 5 (thorough). '
+                 'Oracle: two-sided inverse on domain probes and equality with the reference inverse map, class honesty predicates, source/target swap for '
+                 'alignments, landmarks sent back exactly for interpolating warps (reverse-fit spline solved independently), receiver unchanged.'},
+ 'C06': {'design_ref': 'DESIGN.md 3/C06',
+         'note': 'thorough levels 4-5 use a narrowed alphabet; buffers are discovered by walking __dict__ (only to find places to write; verdicts use the '
+                 'public observation)',
+         'technique': 'explicit-state BFS over operation histories on the implementation, each transition checked against a reference model',
+         'text': '(a) 153 Copyable letters (shapes, images, landmark managers, transforms incl. chains/alignments/warps, linear and PCA models, lazy lists): '
+                 'copy() must be observationally equal and every write into every reachable array / sparse component / list / dict and every public mutator '
+                 'applied to either side must be invisible in the other (alignment source/target and chain members exempt by documented design); (b) the '
+                 'landmark-manager machine (set, set None, get, get None, del, iterate, copy, assign manager to owner, copy/transform owner, edit pool value, '
+                 'edit fetched group) explored breadth-first to depth 3 (quick) / 5 (thorough) against an ordered-dict-of-owned-arrays model, with write '
+                 'probes on every newly stored group.'},
+ 'C08': {'design_ref': 'DESIGN.md 3/C08',
+         'note': 'general-position point sets; exact comparison (same arithmetic on both sides)',
+         'technique': 'explicit-state BFS over operation histories on the implementation, each transition checked against a reference model',
+         'text': 'For 29 alignment class/option letters (similarity rotation x mirror, rotation mirror, TPS kernel x singular-value floor, both '
+                 'piecewise-affine implementations, translation, uniform scale, affine; 2-D and 3-D) every history of set_target (4 targets incl. the source '
+                 'itself), copy and wrong-sized targets up to depth 3 (quick) / 4 (thorough) is compared exactly with a freshly constructed alignment with the '
+                 'same options (map, matrix/coefficients, target, aligned source, error, pseudoinverse); sources and caller point sets must be untouched; '
+                 'wrong sizes must raise ValueError and change nothing; GPA per-shape transforms must equal the similarity alignments to the reported target.'},
  'C10': {'design_ref': 'DESIGN.md 3/C10',
          'note': 'float64 data with a guarded well-separated spectrum (n<=11, d<=10); tolerances 1e-9..1e-11 with >=100x margin over the measured error',
          'technique': 'explicit-state BFS over bookkeeping histories on the implementation, differential against an SVD reference model and against fresh '
@@ -19,6 +55,14 @@ CHECKS = {'C01': {'design_ref': 'DESIGN.md 3/C01',
                  '(n_active_components by int / numpy int / variance fraction, trim_components by int / fraction / default, invalid values) is explored '
                  'breadth-first to depth 3 (quick) / 4 (thorough) with the pair (kept, active) as model state; after every step the identities on the active '
                  'prefix, the variance accounting and observational equality with a model built fresh with that many components are required.'},
+ 'C11': {'design_ref': 'DESIGN.md 3/C11',
+         'note': 'random chunkings for larger n are outside the family; guarded data (smallest singular value of every prefix >= 5e-3 s_max)',
+         'technique': 'explicit-state BFS over operation histories on the implementation, each transition checked against a reference model',
+         'text': 'Incremental PCA and incremental GMRF are explored as state machines: state = (data letter, samples consumed), transition = increment(next k '
+                 'samples) for every k that fits, so EVERY composition of n (n up to 8 quick / 12 thorough) into an initial batch plus increments is executed, '
+                 'with states merged by prefix (confluence) and no-merge roots executing every chunking literally. After every increment n_samples, mean, '
+                 'eigenvalues, principal projector and eigen-directions (PCA) or mean vector and dense precision (GMRF: 7-12 graphs x mode x storage x bias x '
+                 '1-2 features per vertex x 4 feed kinds) must equal both the batch model of the prefix and a plain-numpy definition.'},
  'C13': {'design_ref': 'DESIGN.md 3/C13',
          'note': 'finite letter grids stand for the continuous bounds; resampling path at fractional centres compared on interior points only',
          'technique': 'exhaustive enumeration of a finite input/operation alphabet on the implementation against a slicing / per-pixel reference model '
